@@ -678,11 +678,22 @@ func (v *Verifier) havocLoc(st *State, l modLoc, in ssa.Instruction) {
 		p := mk("Ptr", "zz_qp")
 		sel := mk(h.ElSort, "select", nb, p)
 		in := tAnd(mk("Bool", "(_ is zz_fld)", p), tEq(mk("Int", "zz_fld_idx", p), l.addr))
+		if l.guard != nil {
+			if l.guard.Op == "false" {
+				return
+			}
+			// when(c, anyfield(...)): nothing changes unless c holds
+			in = tAnd(l.guard, in)
+		}
+		guarded := l.guard != nil && l.guard.Op != "true"
 		st.assume(mk("Bool", "forall ((zz_qp Ptr))", withPattern(tImp(tNot(in), tEq(sel, mk(h.ElSort, "select", oldArr, p))), sel)))
 		fid := l.addr
 		h.regionHavoc(nb, func(a *Term) int {
 			if a.Op == "zz_fld" {
 				if termEq(a.Args[1], fid) {
+					if guarded {
+						return -1
+					}
 					return 1
 				}
 				if d, ok := provablyDistinct(a.Args[1], fid); ok && d {
